@@ -1,3 +1,4 @@
+import PsModel.Gen.C04Shape
 /-!
 # C04 model – state-trigger hub, per-trigger FIFO queues and the state branch of both trigger loops
 
@@ -348,32 +349,64 @@ end New
 
 /-! ## `kwargs=None` spelled out (the documented default value)
 
-`qs` = for the delivered watched changes of one decorator, in order: does the change qualify (expression true)? -/
+`qs` = for the delivered watched changes of one decorator, in order: does the change qualify (expression true)?
+`ctxs` = the ids of those changes.  Deviation flag `noneIsEmpty` (DESIGN §4): `true` = the code since the fix of C04-F5
+(`… .get("kwargs") or {}`), `false` = the code before it (`… .get("kwargs", {})`).  Its current value is read off the source
+on every run (`Gen.KWARGS_NONE_IS_EMPTY_LEGACY` / `_NEW`). -/
+
+/-- `self.state_trigger_kwargs.get("kwargs") or {}` / `self.kwargs.get("kwargs") or {}`: `None` counts as no extra keywords -/
+def kwOr (k : Option (List (String × String))) : List (String × String) := k.getD []
+
+/-- the loop over the delivered changes once `user_kwargs` is a dict: every qualifying change starts a run -/
+def kwRuns : List Bool → List Nat → List Nat
+  | true :: qs, c :: cs => c :: kwRuns qs cs
+  | false :: qs, _ :: cs => kwRuns qs cs
+  | _, _ => []
 
 namespace Legacy
 
-/-- legacy: `self.state_trigger_kwargs.get("kwargs", {})` yields `None` (the key exists), and for the first qualifying
+/-- pre-fix: `self.state_trigger_kwargs.get("kwargs", {})` yields `None` (the key exists), and for the first qualifying
 change `func_args.update(user_kwargs)` raises `TypeError` inside `trigger_watch`; its `except Exception` handler
 unsubscribes the queue and the trigger task ends – before `call_action`.  So: no run ever starts, and the expression
 is evaluated up to and including the first qualifying change only. -/
-def kwNoneRuns (_qs : List Bool) : List Nat := []
-
-def kwNoneEvals : List Bool → Nat
+def kwNoneEvalsPreFix : List Bool → Nat
   | [] => 0
   | true :: _ => 1
-  | false :: qs => 1 + kwNoneEvals qs
+  | false :: qs => 1 + kwNoneEvalsPreFix qs
+
+def kwNoneRunsF (noneIsEmpty : Bool) (qs : List Bool) (ctxs : List Nat) : List Nat :=
+  if noneIsEmpty then kwRuns qs ctxs else []
+
+def kwNoneEvalsF (noneIsEmpty : Bool) (qs : List Bool) : Nat :=
+  if noneIsEmpty then qs.length else kwNoneEvalsPreFix qs
+
+/-- the code as it is (extracted) -/
+def kwNoneRuns := kwNoneRunsF Gen.KWARGS_NONE_IS_EMPTY_LEGACY
+def kwNoneEvals := kwNoneEvalsF Gen.KWARGS_NONE_IS_EMPTY_LEGACY
 
 end Legacy
 
 namespace New
 
-/-- new subsystem: the kwargs schema `vol.Coerce(dict[str, Any])` rejects `None` when the decorator is validated
-(`TypeError: … keyword 'kwargs' should be type dict`): the function gets no trigger at all -/
-def kwNoneRuns (_qs : List Bool) : List Nat := []
+/-- pre-fix: the kwargs schema `vol.Coerce(dict[str, Any])` rejects `None` when the decorator is validated
+(`TypeError: … keyword 'kwargs' should be type dict`): the function gets no trigger at all.  Since the fix the schema is
+`vol.Any(None, vol.Coerce(dict…))` and `dispatch` merges `self.kwargs.get("kwargs") or {}`. -/
+def kwNoneRunsF (noneIsEmpty : Bool) (qs : List Bool) (ctxs : List Nat) : List Nat :=
+  if noneIsEmpty then kwRuns qs ctxs else []
 
-def kwNoneEvals (_qs : List Bool) : Nat := 0
+def kwNoneEvalsF (noneIsEmpty : Bool) (qs : List Bool) : Nat :=
+  if noneIsEmpty then qs.length else 0
+
+def kwNoneRuns := kwNoneRunsF Gen.KWARGS_NONE_IS_EMPTY_NEW
+def kwNoneEvals := kwNoneEvalsF Gen.KWARGS_NONE_IS_EMPTY_NEW
 
 end New
+
+/-- shapes of `State.update` / `State.notify_del` the hub model relies on (extracted on every run): one copy of
+`func_args` per subscriber queue, `notify_var_last` recorded for every key of `State.notify`, and `notify_del` removing
+only the queue – never the entity's entry or its last value -/
+def hubShapeOK : Bool :=
+  Gen.UPDATE_COPIES_FUNC_ARGS && Gen.UPDATE_RECORDS_LAST_FOR_KEYS && Gen.NOTIFY_DEL_KEEPS_ENTRY
 
 /-! ## the transition system -/
 
@@ -434,6 +467,14 @@ def step (h : Handler) (cfgs : List STCfg) (s : Sys) : Step → Sys
 def exec (h : Handler) (cfgs : List STCfg) (s : Sys) (steps : List Step) : Sys := steps.foldl (step h cfgs) s
 
 def init (live : Store) : Sys := ⟨⟨live, []⟩, fun _ => ⟨[], []⟩, []⟩
+
+/-- **Every subscriber goes away and comes back** (script removed / reloaded, function redefined): the decorators get
+fresh, empty queues (whatever was still queued dies with the old ones).  `State.notify_del` only removes the queue from
+`State.notify[entity]`; the – possibly empty – entry itself stays, so `State.update` goes on recording the entity's value
+in `State.notify_var_last` while nobody is subscribed: the hub (`live`, `last`, and which entities are keys) is unchanged.
+Operations issued while nobody is subscribed are ordinary `Step.op`s (they update the hub; what they enqueue is dropped
+by the next `relife`). -/
+def relife (s : Sys) : Sys := { s with ts := fun i => ⟨[], (s.ts i).evals⟩ }
 
 /-- runs started by decorator `i`, in order -/
 def runsOf (i : Nat) (log : List (Nat × Run)) : List Run := (log.filter (fun p => p.1 == i)).map (·.2)
